@@ -40,3 +40,20 @@ func explainGoal(t *Term, path string, depth int) []NamedTerm {
 	}
 	return out
 }
+
+// continuesExpr reports whether the text ends in a token after which a Go
+// expression continues on the next line (binary operator, open bracket, comma).
+func continuesExpr(s string) bool {
+	i := len(s) - 1
+	for i >= 0 && (s[i] == ' ' || s[i] == '\t') {
+		i--
+	}
+	if i < 0 {
+		return false
+	}
+	switch s[i] {
+	case '&', '|', '>', '<', '=', '(', ',', '+', '-', '*', '/', '!', ':', '{', '[':
+		return true
+	}
+	return false
+}
